@@ -16,6 +16,8 @@ func init() {
 		Run:   runC16,
 		Trusted: []string{"mwitkow/grpc-proxy TransparentHandler forwards frames, metadata, trailers and status unchanged", "grpc-go honours codec, interceptor and size options"},
 		Mutants: []mutant{
+			{Name: "authority used as destination host", File: "proxy/grpc_handler.go", Old: "\thosts := md[\"dsthost\"]\n", New: "\thosts := md[\"dsthost\"]\n\tif len(hosts) == 0 {\n\t\thosts = md[\":authority\"]\n\t}\n", Expect: "C16.H1"},
+
 			{Name: "call the handler when no target was found", File: "proxy/grpc_handler.go", Old: "\t\tlog.Println(\"[WARN] grpc: no route found for\", info.FullMethod)\n\t\treturn status.Error(codes.NotFound, \"no route found\")", New: "\t\tlog.Println(\"[WARN] grpc: no route found for\", info.FullMethod)\n\t\treturn handler(srv, stream)", Expect: "C16.G1"},
 			{Name: "NotFound replaced by Internal", File: "proxy/grpc_handler.go", Old: "return status.Error(codes.NotFound, \"no route found\")", New: "return status.Error(codes.Internal, \"no route found\")", Expect: "C16.G1"},
 			{Name: "director reads another context key", File: "proxy/grpc_handler.go", Old: "target, _ := ctx.Value(targetKey{}).(*route.Target)", New: "target, _ := ctx.Value(connCtxKey{}).(*route.Target)", Expect: "C16.K1"},
@@ -43,6 +45,7 @@ func runC16(c *Ctx) {
 	runC16L1(c)
 	runC16P(c)
 	runC16Extra(c)
+	runC16H1(c)
 }
 
 // grpcCode: v is status.Error(codes.X, ...) -> X's numeric value.
